@@ -678,6 +678,16 @@ class Translator:
         if s_ is not None:
             return s_
         if is_conversion(callee) or is_conversion(g):
+            # a conversion that lands in a workspace impl (Uint256 -> Uint128 ...) is used like an operation: its exactness
+            # is C08.R4's verdict, imported by the arithmetic-base instance
+            f_ = self.P.fn(fp_)
+            if f_ is not None and f_.body is not None and isinstance(v[2], int) and v[2] < len(f_.body.blocks):
+                t_ = f_.body.blocks[v[2]]["term"]
+                cg = common.resolve_conversion(self.P, (t_.get("func") or {}).get("fn")) if t_.get("k") == "call" else None
+                if cg is None:
+                    cg = self.P.fn(callee)
+                if cg is not None and cg.crate == "bignumber":
+                    self.used_bignum.add(cg.path)
             return self.tr(v[4][0], env)
         f = self.P.fn(callee) or self.P.fn(g)
         if f is not None and f.body is not None:
